@@ -239,6 +239,12 @@ func (m *Map) CompareAndDelete(k, old any) bool {
 	return false
 }
 
+// Clear deletes all the entries (sync.Map.Clear, Go 1.23).
+func (m *Map) Clear() {
+	sched.YieldWhy("Map.Clear")
+	m.m, m.keys = nil, nil
+}
+
 func (m *Map) Range(f func(k, v any) bool) {
 	sched.YieldWhy("Map.Range")
 	ks := append([]any(nil), m.keys...)
